@@ -368,10 +368,12 @@ impl DState {
             let c = v["c"].as_u64().unwrap() as usize;
             let pc = v["pc"].as_u64().unwrap() as usize;
             let kind = v["k"].as_str().unwrap().to_string();
-            if kind == "spawn" {
+            if kind.starts_with("spawn") || kind == "sspawn" {
+                // task ids are handed out in creation order
                 let child = self.child_of[c][pc - 1];
                 if child >= 0 {
-                    self.code_rt.insert(child as usize, v["r"].as_u64().unwrap() as usize);
+                    let id = self.code_rt.len();
+                    self.code_rt.insert(child as usize, id);
                 }
             }
             if self.divergence.is_none() {
